@@ -5,8 +5,9 @@
    Conventions (DESIGN.md 4.1): machine integers are Z with the casts written
    where the code has them; node/slot pointers are small integer ids; data
    pointers are integers (0 = NULL); [malloc] is an oracle argument
-   [alloc_ok].  The free-data callback is always supplied (as the driver does);
-   each operation returns the list of data handed to it. *)
+   [alloc_ok].  Every operation that takes a free-data callback has the flag
+   [cb] (true = a callback is supplied, false = NULL: the documented way to hold
+   borrowed data); it returns the list of data handed to the callback. *)
 From Coq Require Export List ZArith Lia Bool.
 Export ListNotations.
 Local Open Scope Z_scope.
@@ -112,19 +113,19 @@ Definition al_append (s0 : alist) (index data : Z) (alloc_ok : bool) : alist * o
     ({| nodes := zset a idx' data; asize := asize s + 1; acap := acap s |}, Some idx')
   end.
 
-(* muggle_array_list_remove (func_free supplied): result, data given to func_free *)
-Definition al_remove (s : alist) (index : Z) : alist * bool * list Z :=
+(* muggle_array_list_remove: result, data given to func_free (when supplied: the datum, NULL or not) *)
+Definition al_remove (s : alist) (index : Z) (cb : bool) : alist * bool * list Z :=
   let idx := al_get_index s index in
   if idx <? 0 then (s, false, [])
   else
-    let freed := [znth (nodes s) idx] in
+    let freed := if cb then [znth (nodes s) idx] else [] in
     let a := shift_down (Z.to_nat (to_int (asize s) - 1 - idx)) idx (nodes s) in
     ({| nodes := a; asize := asize s - 1; acap := acap s |}, true, freed).
 
-(* muggle_array_list_clear (func_free supplied; NULL data are skipped) *)
-Definition al_clear (s : alist) : alist * list Z :=
+(* muggle_array_list_clear (with func_free: every non-NULL datum; without: nothing is released) *)
+Definition al_clear (s : alist) (cb : bool) : alist * list Z :=
   ({| nodes := nodes s; asize := 0; acap := acap s |},
-   filter (fun d => negb (d =? 0)) (firstn (Z.to_nat (asize s)) (nodes s))).
+   if cb then filter (fun d => negb (d =? 0)) (firstn (Z.to_nat (asize s)) (nodes s)) else []).
 
 (* muggle_array_list_index: Some data of the node, None = NULL *)
 Definition al_index (s : alist) (index : Z) : option Z :=
@@ -148,8 +149,8 @@ Definition al_contents (s : alist) : list Z := firstn (Z.to_nat (asize s)) (node
 Inductive al_op :=
 | AIns (index data : Z) (alloc_ok : bool)
 | AApp (index data : Z) (alloc_ok : bool)
-| ARem (index : Z)
-| AClear
+| ARem (index : Z) (cb : bool)
+| AClear (cb : bool)
 | AEns (capacity : Z) (alloc_ok : bool).
 
 (* result: accepted?, returned offset (or -1), data freed *)
@@ -159,8 +160,8 @@ Definition al_step (s : alist) (o : al_op) : alist * (bool * Z * list Z) :=
                    (s', match r with Some k => (true, k, []) | None => (false, -1, []) end)
   | AApp i d ok => let (s', r) := al_append s i d ok in
                    (s', match r with Some k => (true, k, []) | None => (false, -1, []) end)
-  | ARem i => let '(s', b, f) := al_remove s i in (s', (b, -1, f))
-  | AClear => let (s', f) := al_clear s in (s', (true, -1, f))
+  | ARem i cb => let '(s', b, f) := al_remove s i cb in (s', (b, -1, f))
+  | AClear cb => let (s', f) := al_clear s cb in (s', (true, -1, f))
   | AEns c ok => let (s', b) := al_ensure s c ok in (s', (b, -1, []))
   end.
 
@@ -198,27 +199,27 @@ Definition st_push (s0 : stack) (data : Z) (alloc_ok : bool) : stack * option Z 
 Definition st_top (s : stack) : option Z :=
   if stop s =? 0 then None else Some (znth (snodes s) (stop s - 1)).
 
-(* muggle_stack_pop (func_free supplied; NULL data skipped) *)
-Definition st_pop (s : stack) : stack * list Z :=
+(* muggle_stack_pop (with func_free: the datum when it is not NULL) *)
+Definition st_pop (s : stack) (cb : bool) : stack * list Z :=
   if stop s =? 0 then (s, [])
   else
     let t := stop s - 1 in
     let d := znth (snodes s) t in
-    ({| snodes := snodes s; stop := t; scap := scap s |}, if d =? 0 then [] else [d]).
+    ({| snodes := snodes s; stop := t; scap := scap s |}, if cb then (if d =? 0 then [] else [d]) else []).
 
-Definition st_clear (s : stack) : stack * list Z :=
+Definition st_clear (s : stack) (cb : bool) : stack * list Z :=
   ({| snodes := snodes s; stop := 0; scap := scap s |},
-   filter (fun d => negb (d =? 0)) (firstn (Z.to_nat (stop s)) (snodes s))).
+   if cb then filter (fun d => negb (d =? 0)) (firstn (Z.to_nat (stop s)) (snodes s)) else []).
 
 Definition st_contents (s : stack) : list Z := firstn (Z.to_nat (stop s)) (snodes s).
 
-Inductive st_op := SPush (data : Z) (alloc_ok : bool) | SPop | SClear | SEns (capacity : Z) (alloc_ok : bool).
+Inductive st_op := SPush (data : Z) (alloc_ok : bool) | SPop (cb : bool) | SClear (cb : bool) | SEns (capacity : Z) (alloc_ok : bool).
 
 Definition st_step (s : stack) (o : st_op) : stack * (bool * list Z) :=
   match o with
   | SPush d ok => let (s', r) := st_push s d ok in (s', (match r with Some _ => true | None => false end, []))
-  | SPop => let (s', f) := st_pop s in (s', (true, f))
-  | SClear => let (s', f) := st_clear s in (s', (true, f))
+  | SPop cb => let (s', f) := st_pop s cb in (s', (true, f))
+  | SClear cb => let (s', f) := st_clear s cb in (s', (true, f))
   | SEns c ok => let (s', b) := st_ensure s c ok in (s', (b, []))
   end.
 
@@ -291,18 +292,18 @@ Definition ll_append (s : llist) (pos : option Z) (data : Z) (alloc_ok : bool) :
   end.
 
 (* muggle_linked_list_remove: returns the id of the next node (None = NULL), freed data *)
-Definition ll_remove (s : llist) (k : Z) : llist * option Z * list Z :=
+Definition ll_remove (s : llist) (k : Z) (cb : bool) : llist * option Z * list Z :=
   match zget (litems s) k with
   | None => (s, None, [])
   | Some (_, d) =>
     ({| litems := del_at (Z.to_nat k) (litems s); lnext := lnext s; lpool := lpool s; lsize := lsize s - 1 |},
      match zget (litems s) (k + 1) with Some (id, _) => Some id | None => None end,
-     if d =? 0 then [] else [d])
+     if cb then (if d =? 0 then [] else [d]) else [])
   end.
 
-Definition ll_clear (s : llist) : llist * list Z :=
+Definition ll_clear (s : llist) (cb : bool) : llist * list Z :=
   ({| litems := []; lnext := lnext s; lpool := lpool s; lsize := 0 |},
-   filter (fun d => negb (d =? 0)) (map snd (litems s))).
+   if cb then filter (fun d => negb (d =? 0)) (map snd (litems s)) else []).
 
 Fixpoint find_node (cmp : Z -> Z -> bool) (l : list (Z * Z)) (data : Z) : option Z :=
   match l with
@@ -318,12 +319,12 @@ Definition ll_find (cmp : Z -> Z -> bool) (s : llist) (pos : option Z) (data : Z
 Inductive ll_op :=
 | LIns (pos : option Z) (data : Z) (alloc_ok : bool)
 | LApp (pos : option Z) (data : Z) (alloc_ok : bool)
-| LRem (k : Z)
-| LClear.
+| LRem (k : Z) (cb : bool)
+| LClear (cb : bool).
 
 Definition ll_op_ok (s : llist) (o : ll_op) : bool :=
   match o with
-  | LIns (Some k) _ _ | LApp (Some k) _ _ | LRem k => pos_ok s k
+  | LIns (Some k) _ _ | LApp (Some k) _ _ | LRem k _ => pos_ok s k
   | _ => true
   end.
 
@@ -331,8 +332,8 @@ Definition ll_step (s : llist) (o : ll_op) : llist * (bool * list Z) :=
   match o with
   | LIns p d ok => let (s', r) := ll_insert s p d ok in (s', (match r with Some _ => true | None => false end, []))
   | LApp p d ok => let (s', r) := ll_append s p d ok in (s', (match r with Some _ => true | None => false end, []))
-  | LRem k => let '(s', _, f) := ll_remove s k in (s', (true, f))
-  | LClear => let (s', f) := ll_clear s in (s', (true, f))
+  | LRem k cb => let '(s', _, f) := ll_remove s k cb in (s', (true, f))
+  | LClear cb => let (s', f) := ll_clear s cb in (s', (true, f))
   end.
 
 (* ====================================================================== *)
@@ -354,27 +355,28 @@ Definition qu_enqueue (s : queue) (data : Z) (alloc_ok : bool) : queue * option 
      Some (qnext s))
   end.
 
-Definition qu_dequeue (s : queue) : queue * list Z :=
+Definition qu_dequeue (s : queue) (cb : bool) : queue * list Z :=
   match qitems s with
   | [] => (s, [])
   | (_, d) :: r =>
-    ({| qitems := r; qnext := qnext s; qpool := qpool s; qsize := qsize s - 1 |}, if d =? 0 then [] else [d])
+    ({| qitems := r; qnext := qnext s; qpool := qpool s; qsize := qsize s - 1 |},
+     if cb then (if d =? 0 then [] else [d]) else [])
   end.
 
 Definition qu_front (s : queue) : option (Z * Z) :=
   match qitems s with [] => None | x :: _ => Some x end.
 
-Definition qu_clear (s : queue) : queue * list Z :=
+Definition qu_clear (s : queue) (cb : bool) : queue * list Z :=
   ({| qitems := []; qnext := qnext s; qpool := qpool s; qsize := 0 |},
-   filter (fun d => negb (d =? 0)) (map snd (qitems s))).
+   if cb then filter (fun d => negb (d =? 0)) (map snd (qitems s)) else []).
 
-Inductive qu_op := QEnq (data : Z) (alloc_ok : bool) | QDeq | QClear.
+Inductive qu_op := QEnq (data : Z) (alloc_ok : bool) | QDeq (cb : bool) | QClear (cb : bool).
 
 Definition qu_step (s : queue) (o : qu_op) : queue * (bool * list Z) :=
   match o with
   | QEnq d ok => let (s', r) := qu_enqueue s d ok in (s', (match r with Some _ => true | None => false end, []))
-  | QDeq => let (s', f) := qu_dequeue s in (s', (true, f))
-  | QClear => let (s', f) := qu_clear s in (s', (true, f))
+  | QDeq cb => let (s', f) := qu_dequeue s cb in (s', (true, f))
+  | QClear cb => let (s', f) := qu_clear s cb in (s', (true, f))
   end.
 
 (* ====================================================================== *)
@@ -403,20 +405,31 @@ Definition ring_idx (idx capacity : Z) : Z := Z.land idx (u32 (capacity - 1)).
 
 Definition free_slot : slot := {| in_used := false; sdata := 0 |}.
 
-(* muggle_pointer_slot_init.  [repaired = true] is the code with
+(* start, start + 1, ..., k entries: pp_slots[i] = &slots[i] at init *)
+Fixpoint zfrom (k : nat) (start : Z) : list Z :=
+  match k with O => [] | S k' => start :: zfrom k' (start + 1) end.
+
+(* muggle_pointer_slot_init.  [rounded = true]: the code with
    fixes/C11-pointer-slot-alloc-rounded.patch (arrays sized by the rounded
-   capacity); [repaired = false] is the code before the patch (arrays sized by
-   the requested capacity), kept for the refutation example only. *)
-Definition ps_init_gen (repaired : bool) (requested : Z) (alloc_ok : bool) : option pslot :=
+   capacity; before it they were sized by the requested one).  [checked = true]:
+   the code with fixes/C11-pointer-slot-capacity-overflow.patch (a request above
+   2^31, whose power of two does not fit an unsigned int, is refused with
+   MUGGLE_ERR_INVALID_PARAM; before it the rounded capacity was truncated to 32
+   bits, i.e. to 0).  The code of /repo is [ps_init] (both); the other two
+   instances are kept for the refutation examples only.  None = init returned an
+   error. *)
+Definition ps_init_gen (rounded checked : bool) (requested : Z) (alloc_ok : bool) : option pslot :=
   let c := if requested >? 0 then requested else 1 in
+  if checked && (c >? two31) then None else
   let cap := u32 (next_pow_of_2 (u64 c)) in
-  let n := if repaired then cap else c in
+  let n := if rounded then cap else c in
   if negb alloc_ok then None
   else Some {| slots := repeat free_slot (Z.to_nat n);
-               pp := map Z.of_nat (seq 0 (Z.to_nat n));
+               pp := zfrom (Z.to_nat n) 0;
                pcap := cap; alloc_index := 0; free_index := 0; live := [] |}.
-Definition ps_init := ps_init_gen true.
-Definition ps_init_unrepaired := ps_init_gen false.
+Definition ps_init := ps_init_gen true true.
+Definition ps_init_unrepaired := ps_init_gen false false.
+Definition ps_init_unchecked := ps_init_gen true false.
 
 (* the unit test's and the driver's way of starting the counters elsewhere:
    both cursor fields are overwritten on a fresh (empty) slot *)
